@@ -17,7 +17,8 @@
 (*  - draws DELIMITER SETS from named sets, a sweep that puts every alphabet *)
 (*    character into every role in several shapes, and a seeded sample of    *)
 (*    strings of length 1..4;                                                *)
-(*  - keeps the admissible pairs, rewrites the program and runs a REFERENCE  *)
+(*  - keeps the admissible pairs (action Prepare), rewrites the program and   *)
+(*    runs a REFERENCE                                                       *)
 (*    SCANNER parametrised by the delimiter record over the resulting        *)
 (*    characters, one action per alternative of the tokenizer's pattern (raw,*)
 (*    doc, comment, output, tag, content; first alternative that matches at  *)
@@ -48,7 +49,7 @@ TextsA == {<<>>, <<" ", "x", " ">>}
 TextsB == {<<"x">>, <<" ", "x", " ">>, <<"\n", "x", "\n">>, <<" ">>}
 TextsC == {<<" ", "x", " ">>, <<"x", "\n">>}
 BodiesA == {<<" ", "x", " ">>}
-BodiesB == {<<" ", "x", " ">>, <<"\n", "x", "\n">>, <<>>}
+BodiesB == {<<" ", "x", " ">>, <<>>}
 AllKinds == {"output", "assign", "inline", "liquid", "short", "if", "raw", "comment", "doc"}
 
 Variant(v) == CASE v = 1 -> [ta |-> aX, ra |-> aX, ha |-> aX]
@@ -136,6 +137,10 @@ DS_sampled(lo, hi) == {Sampled(seed, 1 + (seed % 4), seed % 3 # 0) : seed \in lo
 SomeShort == {x \in ShortSources : x[1].s = <<>> /\ x[3].s = <<" ", "x", " ">> /\ x[2].ll /\ ~x[2].lr /\ x[2].k \in {"doc", "short", "raw"}}
 Progs == CASE ProgFam = "wide1" -> LexProgs({1}) \cup ShortProgs({2, 3, 4})
            [] ProgFam = "wide" -> LexProgs({1, 2, 3, 4})
+           [] ProgFam = "wide_v1" -> LexProgs({1})
+           [] ProgFam = "wide_v2" -> LexProgs({2})
+           [] ProgFam = "wide_v3" -> LexProgs({3})
+           [] ProgFam = "wide_v4" -> LexProgs({4})
            [] ProgFam = "short" -> ShortProgs({1, 2, 3, 4})
            [] ProgFam = "sets" -> KitchenProgs \cup {LexProg(src, 2) : src \in SomeShort}
            [] ProgFam = "kitchen" -> {p \in TagProgs : p.name \in {"assigncapture", "rawcomment", "liquidmark"}}
@@ -215,9 +220,15 @@ Gen == Mode = "gen"
 Init == /\ Gen
         /\ prog \in Progs
         /\ d \in DSets
-        /\ AdmissibleX(prog.toks, d)
-        /\ s = RewriteX(prog.toks, d)
-        /\ p = 1 /\ scanned = <<>> /\ alts = {} /\ verdict = ""
+        /\ s = <<>> /\ p = 1 /\ scanned = <<>> /\ alts = {} /\ verdict = "new"
+
+(* the pair is kept only if the set is admissible for the program; then the program is rewritten *)
+Prepare ==
+  /\ Gen /\ verdict = "new"
+  /\ IF AdmissibleX(prog.toks, d)
+     THEN s' = RewriteX(prog.toks, d) /\ verdict' = "scan"
+     ELSE s' = s /\ verdict' = "rejected"
+  /\ UNCHANGED <<prog, d, p, scanned, alts>>
 
 (* one step of the scanner: the first alternative that matches at p; `alts` remembers which ones were taken *)
 BlockStep(a, name, endname) ==
@@ -235,7 +246,7 @@ ContentStep ==
   IN /\ scanned' = Append(scanned, T(SubSeq(s, p, e - 1)))
      /\ p' = e
 Scan ==
-  /\ Gen /\ p <= Len(s)
+  /\ Gen /\ verdict = "scan" /\ p <= Len(s)
   /\ LET a == Alt(p)
      IN /\ CASE a = "raw" -> BlockStep(a, wRaw, wEndraw)
                [] a = "doc" -> BlockStep(a, wDoc, wEnddoc)
@@ -267,11 +278,11 @@ Judge == /\ Mode = "judge" /\ verdict = "pending"
                        ELSE "holds"
          /\ UNCHANGED <<prog, d, s, p, scanned, alts>>
 
-Next == Scan \/ Judge
+Next == Prepare \/ Scan \/ Judge
 Spec == (Init \/ JInit) /\ [][Next]_vars
 
 -----------------------------------------------------------------------------
-Done == Gen /\ p = Len(s) + 1
+Done == Gen /\ verdict = "scan" /\ p = Len(s) + 1
 (* what the scanner must read back: the tokens that were written; a liquid tag is a tag whose content is its lines *)
 WrittenTok(t) == IF t.k = "lq" THEN G(Payload(t, d), t.l, t.r)
                  ELSE IF t.k = "open" THEN T(d.ss \o Sp \o t.v) ELSE t
